@@ -322,6 +322,9 @@ fn run_builder_cmd(args: &[String]) -> i32 {
                 let mut book = builder_run::NonceBook::default();
                 let mut lines: Vec<String> = vec![];
                 for (i, beh) in behs.iter().enumerate().filter(|(i, _)| i % THREADS == t) {
+                    if beh.ops.iter().any(|o| o.op == "tick") {
+                        continue;
+                    }
                     let nbuild = beh.ops.iter().filter(|o| o.op == "build").count();
                     for pr in Proto::all() {
                         // v4.local / v4.public carry every history; the other six protocols
@@ -360,10 +363,33 @@ fn run_builder_cmd(args: &[String]) -> i32 {
     if total_nonces > 0 {
         chunks.push(vec![json!({"id": "cross-thread", "layer": "xthread", "pr": "all", "total": total_nonces, "distinct": all_nonces.len(), "ops": []}).to_string()]);
     }
+    let family = arg(args, "--family").unwrap_or_else(|| "c17".into());
+    // histories in which time passes (op "tick"): one thread per (history, protocol) - they mostly sleep
+    if family == "c13t" {
+        let extra: Vec<String> = std::thread::scope(|sc| {
+            let mut hs = vec![];
+            for (i, beh) in behs.iter().enumerate() {
+                if !beh.ops.iter().any(|o| o.op == "tick") || beh.ops.iter().filter(|o| o.op == "tick").count() > 2 {
+                    continue;
+                }
+                for pr in [Proto::new(4, "local"), Proto::new(4, "public"), Proto::new(2, "local"), Proto::new(3, "public")] {
+                    hs.push(sc.spawn(move || {
+                        let mut r = conc::rng(seed, &format!("builder-tick-{}-{}", i, pr.name()));
+                        let mut book = builder_run::NonceBook::default();
+                        let inst = builder_run::make_binst(&mut r, i);
+                        let km = conc::random_keymat(&mut r, i);
+                        let ops = builder_run::run_behaviour(pr, beh, &inst, &km, &mut book);
+                        json!({"id": format!("t{}:{}", i, pr.name()), "layer": beh.layer, "pr": pr.name(), "ops": ops}).to_string()
+                    }));
+                }
+            }
+            hs.into_iter().map(|h| h.join().expect("thread")).collect()
+        });
+        chunks = vec![extra];
+    }
     // random long histories (implementation -> specification direction)
     let n_random: usize = arg(args, "--random").and_then(|s| s.parse().ok()).unwrap_or(0);
     let maxlen: usize = arg(args, "--maxlen").and_then(|s| s.parse().ok()).unwrap_or(40);
-    let family = arg(args, "--family").unwrap_or_else(|| "c17".into());
     if n_random > 0 {
         let extra: Vec<Vec<String>> = std::thread::scope(|sc| {
             let mut hs = vec![];
